@@ -89,6 +89,16 @@ CHECKS = {
             '0 with no signal and no sanitizer report under any option set; every proper prefix must give exit 0 or a diagnosed '
             'non-zero exit, never a memory error. Truncation is exhaustive for small files (every cut), sampled for larger ones.',
             'Trusts ASan/UBSan detection; allocation-failure paths not injected; hang guard 120 s.', 'DESIGN.md section 7 C10'),
+    'C08': ('F2 translator invariants + in-process rapidcheck unit (c/rc_leb128.cpp)',
+            'metamorphic PBT: one decoded module, many spec-equivalent encodings (LEB128 padding, custom sections, flag-2 data '
+            'segments, empty vs omitted sections, DataCount) -> same multiset of C definitions + same behaviour; rapidcheck '
+            'round-trip of the LEB128 decoders over all legal paddings under ASan',
+            'Metamorphic search: every generated encoding must be accepted and translate to the same set of top-level C '
+            'definitions as the canonical encoding of the same module (compared within one w2c2 build), reruns are byte-identical, '
+            'and a padded encoding is compiled and run against the interpreter. The LEB128 readers are additionally checked in '
+            'process with rapidcheck (value -> padded bytes -> value, exact consumption, no over-read on truncation).',
+            'Trusts my encoder to produce spec-equivalent encodings (self-checked by decoding every variant back to the same '
+            'module with the independent decoder).', 'DESIGN.md section 7 C08'),
 }
 
 NOT_YET = {}
